@@ -60,14 +60,19 @@ def time_split_spec(items, tm, active, inactive, closing, include):
     cur = None
     for x in items:
         t = tm(x)
-        if cur is None:
+        first = cur is None
+        if first:
             cur = []; wins.append(cur); start = last = t
         expired = (active is not None and t >= start + active) or (inactive is not None and t >= last + inactive)
         if expired:
             cur = [x]; wins.append(cur); start = last = t
-        elif closing is not None and closing(x) is True:
+        elif closing is not None and closing(x):          # "accepts": any truthy result
             if include:
+                # the window that follows a closing item opens at once, with the closing item's timestamp as its reference (the property's
+                # "reference timestamp ... of the closing item that preceded it"): it may stay empty
                 cur.append(x); cur = []; wins.append(cur)
+            elif first:
+                cur.append(x)                             # no window is closed before the first item of a key
             else:
                 cur = [x]; wins.append(cur)
             start = last = t
